@@ -37,6 +37,8 @@
 #include "QXmppQt5_autogen/ORNZQ2F6DW/moc_QXmppIncomingClient.cpp"
 #include "QXmppQt5_autogen/ORNZQ2F6DW/moc_QXmppPasswordChecker.cpp"
 
+#include "c16_warm.h"
+
 extern "C" {
 // socket ghost log (XmppSocket::sendData / disconnectFromHost of the client's socket)
 unsigned vp_c16_sent_n();
@@ -50,6 +52,7 @@ void vp_c16_sig_element(unsigned i, QDomElement *out);   // argv[1] of emission 
 void vp_c16_set_class(const QObject *o, const QMetaObject *mo);
 // password checker log (filled by the harness' FakeChecker)
 bool vp_c16_false();
+bool vp_c16_concat_eq(const QString *x, const QString *a, unsigned short ch, const QString *b);   // x == a + ch + b
 bool vp_qstring_eq(const QString *a, const QString *b);
 bool vp_bytes_eq(const QByteArray *a, const QByteArray *b);
 void vp_c16_pick(QString *out, unsigned table, unsigned idx);   // fresh string whose content is entry idx of constant table `table`
@@ -92,6 +95,7 @@ struct World {
     // jidMode: 0 = empty (unauthenticated), 1 = arbitrary non-empty string of <= 4 units
     World(int jidMode, bool withChecker = true)
     {
+        vpC16Warm();
         q = qbuf.p();
         vp_qobject_construct(q, nullptr);
         d = new QXmppIncomingClientPrivate(q);
